@@ -97,3 +97,50 @@ Theorem C13_retry_resumes_after_the_interval : forall c e s r s1,
   retry_handler c e s = (x <- ctl_do c r RSRunning 0 ;; match fst x with Ok _ => ret tt | Err er => fail er end) s1.
 Proof. exact retry_resumes_after_the_interval. Qed.
 Print Assumptions C13_retry_resumes_after_the_interval.
+
+(* ---------- the count over whole operations and histories ---------- *)
+From WF Require Import proofs.CtrHistory.
+
+(* for EVERY history and next operation: the count of (instance i, key k = (error, process, run)) is unchanged, unless the
+   operation is a scheduling step on instance i — of the very process the key names, or one in which the instance crashed
+   (count 0) — or a crash of instance i (count 0). API calls, other processes, other instances, clock advances, lease
+   revocations, rewinds, duplicate deliveries and connector events never move it. (Within a step of the process the key
+   names only the run being handled: C13_step_counts_are_per_process_and_run.) *)
+Theorem C13_history_frame : forall c ops o i k,
+  let w := fst (run_ops c ops) in let w' := fst (run_ops c (ops ++ [o])) in
+  c_get (ctr_of (w_ctrs w') i) k = c_get (ctr_of (w_ctrs w) i) k \/
+  (exists u p, o = OStep i u p /\ (snd (fst k) = eunit_code u \/ c_get (ctr_of (w_ctrs w') i) k = O)) \/
+  (o = OCrash i /\ c_get (ctr_of (w_ctrs w') i) k = O).
+Proof. exact history_counters. Qed.
+Print Assumptions C13_history_frame.
+
+(* exactly the n-th occurrence: along ANY chain of failing invocations of one (error, process, run) — the states in which
+   maybePause is entered, each one's count being what the previous invocation left, which C13_history_frame guarantees for
+   everything that happens in between — starting from a count of j: the invocations with j + t + 1 < n do not pause (no
+   write, no token, the error is passed on), and the one with j + t + 1 = n goes through the controller's pause; with j = 0
+   that is the n-th occurrence, never an earlier one *)
+Theorem C13_exactly_nth : forall c inst n e u ctl, n <> 0 -> forall ss j, fail_chain c inst n e u ctl j ss ->
+  forall t s, nth_error ss t = Some s ->
+  (Z.of_nat (j + t + 1) < n ->
+     kcount inst (pause_key e u ctl) s = (j + t)%nat /\
+     exists s1, maybe_pause c inst n e u ctl s = (Ok false, s1) /\ w_recs (o_w s1) = w_recs (o_w s) /\
+                w_hist (o_w s1) = w_hist (o_w s) /\ o_trace s1 = o_trace s) /\
+  (Z.of_nat (j + t + 1) = n ->
+     kcount inst (pause_key e u ctl) s = (j + t)%nat /\
+     exists s1, w_recs (o_w s1) = w_recs (o_w s) /\ o_trace s1 = o_trace s /\
+       maybe_pause c inst n e u ctl s =
+       (x <- ctl_do c ctl RSPaused 2%N ;;
+        match fst x with Err _ => fail EGen | Ok _ => ctr_clear inst (pause_key e u ctl) ;;; ret true end) s1).
+Proof. exact exactly_nth. Qed.
+Print Assumptions C13_exactly_nth.
+
+(* ... and the count starts afresh after the pause: the clear that follows a successful pause leaves 0 *)
+Theorem C13_count_afresh : forall inst k s, kcount inst k (snd (ctr_clear inst k s)) = O.
+Proof. exact ctr_clear_zero. Qed.
+Print Assumptions C13_count_afresh.
+
+(* non-vacuity: from EVERY state the back-to-back failing invocations form such a chain *)
+Theorem C13_chains_exist : forall c inst n e u ctl m s,
+  fail_chain c inst n e u ctl (kcount inst (pause_key e u ctl) s) (iter_states c inst n e u ctl m s).
+Proof. exact iter_chain. Qed.
+Print Assumptions C13_chains_exist.
